@@ -432,9 +432,15 @@ pub fn gen_c18(out: &mut Out, rng: &mut Rng, thorough: bool) {
         // silent until another connection has been served completely
         let silent = run % 5 < 2;
         let mut line = format!("conc {kind}");
+        // every fourth run: one or two peers connect and reset their connection while it waits
+        // in the listen queue – the other connections must not notice
+        let resets = if run % 4 == 3 { rng.range(1, 2) } else { 0 };
+        for _ in 0..resets {
+            line.push_str(" | svc=D r=- rst=1");
+        }
         for c in 0..nconn {
             if silent && c < nconn - 1 && (c == 0 || rng.chance(1, 4)) {
-                line.push_str(&format!(" | after={}", nconn - 1));
+                line.push_str(&format!(" | after={}", nconn - 1 + resets));
                 let req = Request::ReadHoldingRegisters(c as u16, 1);
                 line.push_str(&format!(
                     " svc={} r=d{}",
@@ -536,8 +542,11 @@ pub fn gen_c18(out: &mut Out, rng: &mut Rng, thorough: bool) {
 /// the serial RTU server (src/server/rtu.rs) on a pseudo-terminal: pipelined typed requests of
 /// every variant, answered / declined / failing, written to the line in small pieces
 pub fn gen_serial_server(out: &mut Out, rng: &mut Rng, n: usize) {
-    for _ in 0..n {
+    for line_no in 0..n {
         let nreq = rng.range(1, 8);
+        // the first runs keep to one slave id at a border of the address classes – broadcast
+        // first: the default of `client::rtu::attach` –, the rest mix ids
+        let fixed_unit = [0x00u8, 0xFF, 0x01, 0xF7, 0xF8].get(line_no).copied();
         let mut data = vec![];
         let mut svc = vec![];
         for q in 0..nreq {
@@ -548,7 +557,7 @@ pub fn gen_serial_server(out: &mut Out, rng: &mut Rng, n: usize) {
                     break r;
                 }
             };
-            let unit = rng.unit();
+            let unit = fixed_unit.unwrap_or_else(|| rng.unit());
             data.extend(frame("ser", 0, unit, &spec::request_bytes(&req).unwrap()));
             svc.push(match rng.below(12) {
                 0 | 1 => Svc::Decline,
@@ -634,6 +643,17 @@ pub fn mon_c18(out: &mut Out, l: &str, r: &str) {
 // ================================================================ C14 (accept loop)
 
 pub fn gen_c14_accept(out: &mut Out, rng: &mut Rng, thorough: bool) {
+    // a connection setup that fails with each error kind in turn (connection kinds, resource
+    // kinds, `Other`), after a good connection, on both servers: the loop must stop with it
+    for kind in ["tcp", "rtu"] {
+        for k in 0..crate::wire::INJECTED.len() {
+            let pre = *rng.pick(&["a", "a,r", "r,a", "b,a"]);
+            monitor_line(out, &format!("accept {kind} {pre},sk{k},a"));
+        }
+        for k in ["ot", "id", "ue", "bp", "nc", "to"] {
+            monitor_line(out, &format!("accept {kind} a,s{k},a"));
+        }
+    }
     let n = if thorough { 200 } else { 24 };
     for i in 0..n {
         let kind = if i % 2 == 0 { "tcp" } else { "rtu" };
